@@ -36,6 +36,22 @@ def classify(expr, doc, got, want):
     return None
 
 
+REGEX_CASES = [
+    # (function, pattern): full-match vs search semantics, alternation scope, line ends, case
+    ("match", "a|b"), ("match", "ab|a"), ("match", "a|ab"), ("match", "a"), ("match", "a$"), ("match", "^a"), ("match", "a.*"), ("match", "(a|b)c"), ("match", "a??b?"), ("match", ""),
+    ("search", "a|b"), ("search", "^a"), ("search", "a$"), ("search", "b$"), ("search", "^$"), ("search", ""), ("search", "a.c"),
+]
+REGEX_DOC = ["a", "b", "ab", "ax", "xb", "ba", "a\n", "\na", "abc", "a\nc", "", "A", "ac", "bc", 1, None, ["a"]]
+
+
+def regex_reference(fn, pat, v):
+    import re
+
+    if not isinstance(v, str):
+        return False
+    return bool(re.fullmatch(pat, v)) if fn == "match" else bool(re.search(pat, v))
+
+
 def run(tier, seed):
     docs, exprs = FL.filter_universe(tier, seed)
     rec = U.Recorder(f"{len(exprs)} well-typed filter expressions (depth <= {2 if tier == 'quick' else 3}) x 4 spellings x {len(docs)} documents")
@@ -67,4 +83,17 @@ def run(tier, seed):
                     rec.fail(f"{text}|{d!r}", f"findall({text!r}, {d!r}) -> {got!r} but RFC 9535 selects {want!r}",
                              f"import jsonpath\ngot = jsonpath.findall({text!r}, {d!r})\nwant = {want!r}\nprint('got ', got); print('want', want)\nsys.exit(0 if repr(got) == repr(want) else 1)",
                              classify(e, d, got, want))
+    for fn, pat in REGEX_CASES:
+        for text in (f"$[?{fn}(@, '{pat}')]", f'$[?{fn}(@, "{pat}")]', f"$[?!{fn}(@, '{pat}')]"):
+            neg = "!" in text
+            want = [v for v in REGEX_DOC if regex_reference(fn, pat, v) != neg]
+            try:
+                got = jsonpath.findall(text, REGEX_DOC)
+            except Exception as ex:  # noqa: BLE001
+                got = f"raises {type(ex).__name__}: {ex}"
+            if isinstance(got, list) and U.same_values(got, want):
+                rec.ok((text,))
+            else:
+                rec.fail(f"regex:{text}", f"findall({text!r}, {REGEX_DOC!r}) -> {got!r} but RFC 9535 2.4.6/2.4.7 selects {want!r}",
+                         f"import jsonpath\ngot = jsonpath.findall({text!r}, {REGEX_DOC!r})\nprint(got); sys.exit(0 if got == {want!r} else 1)")
     return rec.result()
